@@ -30,6 +30,12 @@ type Visitor interface {
 	OnPanic(x *Ctx, s *St, op Op, p string)
 }
 
+// DeadEnder is implemented by visitors that want to hear about non-terminal
+// states without any accepted operation.
+type DeadEnder interface {
+	OnDeadEnd(x *Ctx, s *St)
+}
+
 // Base is a Visitor that does nothing.
 type Base struct{}
 
@@ -58,7 +64,27 @@ type Run struct {
 	EdgeDst []int32
 	Term    []int32 // ids of terminal (GameClosed) states
 
-	replayHist []string // set while replaying a path outside the BFS
+	cntMu  sync.Mutex
+	counts map[string]int64
+}
+
+// Count adds to a coverage counter (buffered per run, flushed into the report).
+func (r *Run) Count(key string, n int64) {
+	r.cntMu.Lock()
+	if r.counts == nil {
+		r.counts = map[string]int64{}
+	}
+	r.counts[key] += n
+	r.cntMu.Unlock()
+}
+
+func (r *Run) flush() {
+	r.cntMu.Lock()
+	for k, v := range r.counts {
+		r.Rep.Add(k, v)
+	}
+	r.counts = nil
+	r.cntMu.Unlock()
 }
 
 // Ctx is handed to visitor callbacks; it knows where in the search we are.
@@ -91,15 +117,32 @@ func (x *Ctx) Fresh(s *St) pf.Game {
 	return pf.NewGameFromState(explore.DeepCopy(s.GS))
 }
 
+// Report records a counterexample like Violate but does not mark the current
+// state as corrupt (used by refusal probes whose state is unchanged).
+func (x *Ctx) Report(sig, msg, expected, observed string, extra ...Op) {
+	was := x.violated
+	x.Violate(sig, msg, expected, observed, extra...)
+	x.violated = was
+}
+
 // Violate records a counterexample ending with the given extra operations.
 func (x *Ctx) Violate(sig, msg, expected, observed string, extra ...Op) {
+	x.violated = true
+	hl := x.node.Depth + len(extra)
+	if x.hist != nil {
+		hl = len(x.hist) + len(extra)
+	}
+	if x.Run.Rep.Skip(sig, hl) {
+		return
+	}
 	h := x.History()
 	for _, o := range extra {
 		h = append(h, o.Label())
 	}
 	v := &explore.Violation{Property: x.Run.Property, Engine: "hand", Signature: sig, Message: msg,
 		Config: x.Run.Cfg.JSON(), History: h, Expected: expected, Observed: observed}
-	v.GoTest = goTest(x.Run.Cfg, h)
+	cfg := x.Run.Cfg
+	v.GoTestFn = func() string { return goTest(cfg, h) }
 	v.Confirm = func() (bool, string) { return ReplayViolation(v) }
 	x.violated = true
 	x.Run.Rep.Violation(v)
@@ -256,7 +299,7 @@ func (r *Run) Explore() {
 		if x.violated {
 			// a state that already violates the property is a counterexample, not a
 			// starting point: its successors would only repeat the same root cause
-			r.Rep.Add("violating_states_not_expanded", 1)
+			r.Count("violating_states_not_expanded", 1)
 			return
 		}
 		if s.GS.Status.CurrentEvent == "GameClosed" {
@@ -265,6 +308,14 @@ func (r *Run) Explore() {
 			r.edgeMu.Unlock()
 			return
 		}
+		accepted := 0
+		defer func() {
+			if accepted == 0 {
+				if de, ok := r.Vis.(DeadEnder); ok {
+					de.OnDeadEnd(x, s)
+				}
+			}
+		}()
 		for _, op := range Alphabet(cfg, s.GS) {
 			g := x.Fresh(s)
 			err, p := Apply(g, op)
@@ -275,14 +326,14 @@ func (r *Run) Explore() {
 				continue
 			}
 			if err != nil {
-				r.Rep.Add("refused_alphabet_ops", 1)
+				r.Count("refused_alphabet_ops", 1)
 				r.Vis.OnRefused(x, s, op, err, post)
 				continue
 			}
 			x.violated = false
 			mon := r.Vis.OnStep(x, s, op, post)
 			if x.violated {
-				r.Rep.Add("violating_states_not_expanded", 1)
+				r.Count("violating_states_not_expanded", 1)
 				x.violated = false
 				continue
 			}
@@ -290,6 +341,7 @@ func (r *Run) Explore() {
 			if r.Mode == "replay" {
 				ns.Hist = append(append([]Op{}, s.Hist...), op)
 			}
+			accepted++
 			id, _ := emit(op.Label(), ns)
 			if r.Edges {
 				r.edgeMu.Lock()
@@ -299,6 +351,7 @@ func (r *Run) Explore() {
 			}
 		}
 	})
+	r.flush()
 	r.Rep.Add("states", b.States)
 	r.Rep.Add("transitions", b.Transitions)
 	r.Rep.Add("traces_validated_against_impl", b.Transitions)
@@ -319,7 +372,7 @@ func (r *Run) crossCheck(x *Ctx, s *St) {
 		return
 	}
 	g, err := Replay(r.Cfg, ops)
-	r.Rep.Add("clone_vs_replay_crosschecks", 1)
+	r.Count("clone_vs_replay_crosschecks", 1)
 	if err != nil {
 		r.Rep.Add("clone_vs_replay_disagreements", 1)
 		r.Rep.Set("clone_vs_replay_first_disagreement", fmt.Sprintf("%s: %v: %v", r.Cfg.Short(), x.History(), err))
